@@ -34,8 +34,9 @@ type perturbCfg struct {
 	dispatches   atomic.Int64
 	sig          atomic.Uint64 // hash of the sequence of loop arms taken
 	stMu         sync.Mutex
-	states       map[uint64]struct{} // abstract loop states seen
-	model        *shadow             // online reference model of the loop (plain builds only)
+	states       map[uint64]struct{}             // abstract loop states seen
+	model        *shadow                         // online reference model of the loop (plain builds only)
+	hold         func(j *scheduler.ScheduledJob) // HoldAtGot scenarios: called at the worker's "got a job" point
 }
 
 var curPerturb atomic.Pointer[perturbCfg]
@@ -78,6 +79,9 @@ func hook(p int, key uintptr, s *scheduler.Scheduler, j *scheduler.ScheduledJob,
 	pc := curPerturb.Load()
 	if pc == nil {
 		return
+	}
+	if p == scheduler.VerifWorkerGot && pc.hold != nil {
+		pc.hold(j)
 	}
 	var h uint64
 	if pc.quiet {
@@ -172,8 +176,10 @@ type jobRec struct {
 	ctxOK   atomic.Int32 // 1 ctx carried the marker it was enqueued with, 2 it did not
 	enqCall int64
 	enqRet  int64
+	held    atomic.Bool // the worker holding this job saw cancel() return before it looked at the job's context
 	err     error
 	sj      *scheduler.ScheduledJob
+	sjp     atomic.Pointer[scheduler.ScheduledJob] // the same, readable from hook goroutines
 }
 
 type stateRec struct {
@@ -186,8 +192,16 @@ type stateRec struct {
 type ctxKey struct{}
 
 type jobErr struct {
-	i     int
-	loose bool // Is reports true for every error of another type (as an error whose Is compares a classification that foreign errors all share)
+	i       int
+	loose   bool // Is reports true for every error of another type (as an error whose Is compares a classification that foreign errors all share)
+	ctxLike bool // unwraps to context.DeadlineExceeded
+}
+
+func (e *jobErr) Unwrap() error {
+	if e.ctxLike {
+		return context.DeadlineExceeded
+	}
+	return nil
 }
 
 func (e *jobErr) Error() string { return fmt.Sprintf("job %d failed", e.i) }
@@ -219,6 +233,7 @@ type Exec struct {
 
 	recs []jobRec
 
+	emits         atomic.Int64
 	submitted     atomic.Int64
 	submittedDeps atomic.Int64
 
@@ -268,6 +283,9 @@ type emitter struct{ x *Exec }
 
 func (e emitter) Emit(st scheduler.State) {
 	x := e.x
+	if k := x.sc.EmitGoexitAt; k > 0 && x.emits.Add(1) == int64(k) {
+		runtime.Goexit() // as t.FailNow inside an emitter does
+	}
 	if x.quiet {
 		return
 	}
@@ -289,6 +307,39 @@ func effectiveLimit(n int) int {
 		l = 4
 	}
 	return l
+}
+
+// holdAtGot is called on a worker that has just received job j and has not yet
+// looked at its context. Jobs other than the cancelling ones wait here until
+// cancel() has returned (at most 3 ms: with every worker held the canceller
+// might not get a worker). A job released because cancel() returned must not
+// start: whatever the worker does next happens after the context was done.
+func (x *Exec) holdAtGot(j *scheduler.ScheduledJob) {
+	idx := -1
+	for t0 := time.Now(); idx < 0 && time.Since(t0) < time.Millisecond; {
+		for i := range x.recs {
+			if x.recs[i].sjp.Load() == j {
+				idx = i
+				break
+			}
+		}
+		if idx < 0 {
+			runtime.Gosched()
+		}
+	}
+	if idx < 0 {
+		return
+	}
+	if b := x.sc.Jobs[idx].Beh; b == BehCancelOK || b == BehCancelErr || b == BehCancelGoexit || x.sc.Jobs[idx].OtherCtx {
+		return
+	}
+	for t0 := time.Now(); time.Since(t0) < 3*time.Millisecond; {
+		if x.cancelStamp.Load() != 0 {
+			x.recs[idx].held.Store(true)
+			return
+		}
+		runtime.Gosched()
+	}
 }
 
 func (x *Exec) openGate() { x.gateOnce.Do(func() { close(x.gate) }) }
@@ -428,7 +479,7 @@ func newExec(sc *Scenario, quiet bool) *Exec {
 	}
 	x.recs = make([]jobRec, len(sc.Jobs))
 	for i := range x.recs {
-		x.recs[i].err = &jobErr{i: i, loose: sc.LooseErrs && i%3 == 1}
+		x.recs[i].err = &jobErr{i: i, loose: sc.LooseErrs && i%3 == 1, ctxLike: sc.CtxLikeErrs && i%4 == 2}
 	}
 	x.marker, x.otherMarker = new(int), new(int)
 	root := context.WithValue(context.Background(), ctxKey{}, x.marker)
@@ -468,6 +519,9 @@ func newExec(sc *Scenario, quiet bool) *Exec {
 	x.perturb = &perturbCfg{seed: sc.PerturbSeed, profile: sc.Profile, quiet: quiet, scale: 1, states: map[uint64]struct{}{}}
 	if !quiet {
 		x.perturb.model = newShadow(x.limit, sc.COE)
+	}
+	if sc.HoldAtGot && !quiet {
+		x.perturb.hold = x.holdAtGot
 	}
 	switch {
 	case len(sc.Jobs) >= 10000:
@@ -588,6 +642,7 @@ func (x *Exec) enqueue(s *scheduler.Scheduler, i int) {
 		r.enqCall = x.stamp()
 	}
 	r.sj = s.Enqueue(ctx, scheduler.Job{Run: x.body(i), Dependencies: deps})
+	r.sjp.Store(r.sj)
 	if !x.quiet {
 		r.enqRet = x.stamp()
 	}
@@ -703,6 +758,9 @@ func (x *Exec) run() {
 		x.enqueue(s, i)
 	}
 	enq.Wait()
+	if sc.GateOpen == "enqueued" {
+		x.openGate()
+	}
 
 	wctx := x.ctx
 	if sc.WaitOtherCtx {
